@@ -10,7 +10,10 @@ anchor_missing.*), floating-point exception monitor, and an input-immutability m
 (pvmon.ref.neutron.ArgumentGuard) on the five public entry points.
 History: the 'buffer' cases pass ONE mutable wavelength/energy object (ndarray or list) to consecutive calls and
 modify it in place between them (refill, rescale, shift, single item, reverse, append), with no other call in
-between; every call is judged by the reference for the values the buffer holds at that moment."""
+between; every call is judged by the reference for the values the buffer holds at that moment.
+Structure: the 'nested' cases write a model multiset of atoms with groups inside groups (multipliers other than 1
+on two or three levels; string, Formula, nested (count, fragment) list, Formula arithmetic, n*formula(text)); the
+reference composition is the multiset itself (pvmon.gen.compounds.nest_tree / denote), never anything parsed."""
 import math
 
 from ..statemon import Reach, FPMonitor
